@@ -71,6 +71,58 @@ theorem C07_token_edit_doctype (raw : Bytes) (ops : List DoctypeOp) :
   rw [h'.1, h'.2]
   cases ops <;> simp
 
+/-- Operations for another kind of token are ignored (they cannot be expressed in the typed API). -/
+theorem Token.applyOps_kind (tok : Token) (ops : List TokenOp) :
+    tok.applyOps ops = (match tok with
+      | .textChunk t => .textChunk (t.applyOps (opsText ops))
+      | .startTag t => .startTag (t.applyOps (opsStart ops))
+      | .endTag t => .endTag (t.applyOps (opsEnd ops))
+      | .comment t => .comment (t.applyOps (opsComment ops))
+      | .doctype t => .doctype (t.applyOps (opsDoctype ops))) := by
+  induction ops generalizing tok with
+  | nil => cases tok <;> rfl
+  | cons op ops ih =>
+    simp only [Token.applyOps, List.foldl_cons] at ih ⊢
+    rw [ih]
+    cases tok <;> cases op <;>
+      simp [Token.apply, opsText, opsStart, opsEnd, opsComment, opsDoctype, TextChunk.applyOps,
+        StartTag.applyOps, EndTag.applyOps, Comment.applyOps, Doctype.applyOps]
+
+/-- **C07_token_edit** — every token kind, every script: serialisation = the documented edit
+`before₁…beforeₙ ++ (own | last replacement | ε) ++ afterₘ…after₁`. -/
+theorem C07_token_edit (enc : Enc) (tok : Token) (hfresh : Token.fresh tok) (ops : List TokenOp) :
+    (tok.applyOps ops).intoBytes enc = edit enc (ownBytes enc tok ops) (contentOpsOf tok ops) := by
+  rw [Token.applyOps_kind]
+  cases tok with
+  | textChunk t =>
+    obtain ⟨text, last, mu⟩ := t
+    simp only [Token.fresh] at hfresh; subst hfresh
+    exact C07_token_edit_text enc text last _
+  | startTag t => exact C07_token_edit_startTag enc t hfresh _
+  | endTag t =>
+    obtain ⟨name, raw, md, mu⟩ := t
+    simp only [Token.fresh] at hfresh; obtain ⟨rfl, rfl⟩ := hfresh
+    exact C07_token_edit_endTag enc name raw _
+  | comment t =>
+    obtain ⟨text, raw, md, mu⟩ := t
+    simp only [Token.fresh] at hfresh; obtain ⟨rfl, rfl⟩ := hfresh
+    exact C07_token_edit_comment enc text raw _
+  | doctype t =>
+    obtain ⟨raw, rm⟩ := t
+    simp only [Token.fresh] at hfresh; subst hfresh
+    simp only [Token.intoBytes, ownBytes, contentOpsOf]
+    rw [C07_token_edit_doctype]
+    cases hops : opsDoctype ops with
+    | nil => simp [edit, befores, afters, dropped, encodeDyn]
+    | cons o os =>
+      have hl : lastReplacement ((o :: os).map fun _ => MutOp.remove) = none := by
+        apply LolHtml.Lemmas.ElementOps.lastReplacement_none_of
+        intro op hop c
+        obtain ⟨_, _, rfl⟩ := List.mem_map.mp hop
+        simp
+      simp only [edit, hl]
+      simp [befores, afters, dropped, encodeDyn]
+
 /-- Non-vacuity / readable instance: `before a; after x; replace r1; before b; after y; replace r2`
 on `</p>` gives `a b r2 y x`. -/
 example :
